@@ -27,10 +27,14 @@ const (
 	okList
 	okMap
 	okNothing
+	okGenList // gen.Array: a named slice type - uncomparable, and not matched by a `case []any`
+	okGenMap  // gen.Object
 	okCount
 )
 
-var okNames = [...]string{"nil", "true", "false", "int", "float", "string", "list", "map", "Nothing"}
+var okNames = [...]string{"nil", "true", "false", "int", "float", "string", "list", "map", "Nothing", "gen.Array", "gen.Object"}
+
+func (k okind) container() bool { return k == okList || k == okMap || k == okGenList || k == okGenMap }
 
 func (k okind) numeric() bool { return k == okInt || k == okFloat }
 func (k okind) isBool() bool  { return k == okTrue || k == okFalse }
@@ -51,9 +55,21 @@ func goTypeKinds(t types.Type) []okind {
 			return []okind{okTrue, okFalse}
 		}
 	case *types.Slice:
-		return []okind{okList}
+		if _, named := t.(*types.Named); named {
+			return []okind{okGenList}
+		}
+		if _, isIface := u.Elem().Underlying().(*types.Interface); isIface {
+			return []okind{okList}
+		}
+		return nil // a typed slice ([]int): not an operand kind of the matrix
 	case *types.Map:
-		return []okind{okMap}
+		if _, named := t.(*types.Named); named {
+			return []okind{okGenMap}
+		}
+		if _, isIface := u.Elem().Underlying().(*types.Interface); isIface {
+			return []okind{okMap}
+		}
+		return nil
 	}
 	return nil
 }
@@ -313,7 +329,7 @@ func (c *mevalCtx) ifaceEqual(a, b mval, pos token.Pos) mval {
 		return mval{t: "bool", b: false}
 	}
 	switch {
-	case ka == okList || ka == okMap:
+	case ka.container():
 		c.panicked = "comparing uncomparable operands with the interface == at " + c.prog.Pos(pos)
 		return mval{t: "panic"}
 	case ka == okNil || ka == okNothing:
@@ -487,7 +503,7 @@ func (c *mevalCtx) eval(e ast.Expr) mval {
 					v := c.eval(sel.X)
 					if v.t == "rtype" {
 						k := c.kindOf(v.side)
-						return mval{t: "bool", b: k != okList && k != okMap}
+						return mval{t: "bool", b: !k.container()}
 					}
 				}
 				return mval{t: "unknown"}
